@@ -34,11 +34,26 @@ Definition parse_dec_Z (s : bytes) : option Z :=
 
 Inductive parse_int_res := PIok (z : Z) | PIrange | PIsyntax.
 
-(* strconv.ParseInt(s, 10, 64) *)
+Fixpoint digit_prefix (s : bytes) : bytes :=
+  match s with
+  | c :: t => if is_digit c then c :: digit_prefix t else []
+  | [] => []
+  end.
+
+(* strconv.ParseInt(s, 10, 64).  ParseUint scans left to right: an invalid character is a
+   syntax error unless the digits before it already overflowed uint64 (range error first). *)
 Definition parse_int64 (s : bytes) : parse_int_res :=
-  match parse_dec_Z s with
-  | None => PIsyntax
-  | Some z => if in_int64 z then PIok z else PIrange
+  match split_sign s with
+  | (neg, ds) =>
+      match ds with
+      | [] => PIsyntax
+      | _ =>
+          let pre := digit_prefix ds in
+          if Nat.eqb (length pre) (length ds) then
+            let z := if neg then (- Z.of_N (dec_value ds))%Z else Z.of_N (dec_value ds) in
+            if in_int64 z then PIok z else PIrange
+          else if (18446744073709551615 <? dec_value pre) then PIrange else PIsyntax
+      end
   end.
 
 (* ---- floats ----------------------------------------------------------- *)
